@@ -172,6 +172,11 @@ class Stats:
 def _check(solver_factory, formulas, timeout_ms, stats, stage):
     s = solver_factory()
     s.set("timeout", int(timeout_ms))
+    try:
+        # z3's wall-clock timeout is not honoured inside some non-linear preprocessing steps; the resource limit is
+        s.set("rlimit", int(max(timeout_ms, 100) * 30000))
+    except z3.Z3Exception:
+        pass
     for f in formulas:
         s.add(f)
     t0 = time.time()
